@@ -201,6 +201,18 @@ func (s *AttrSpec) sourceRange(content *hcl.BodyContent, blockLabels []blockLabe
 	return attr.Expr.Range()
 }
 
+// conversionErrorDetail describes why val could not be converted to ty. The
+// conversion error itself can quote attribute names and element keys of the
+// given value, which must not happen for content derived from a marked value
+// (a key computed from a sensitive string, for example), so for a value that
+// carries marks only the required type is named.
+func conversionErrorDetail(val cty.Value, ty cty.Type, err error) string {
+	if val.ContainsMarked() {
+		return fmt.Sprintf("%s required", ty.FriendlyNameForConstraint())
+	}
+	return err.Error()
+}
+
 func (s *AttrSpec) decode(content *hcl.BodyContent, blockLabels []blockLabel, ctx *hcl.EvalContext) (cty.Value, hcl.Diagnostics) {
 	attr, exists := content.Attributes[s.Name]
 	if !exists {
@@ -226,7 +238,7 @@ func (s *AttrSpec) decode(content *hcl.BodyContent, blockLabels []blockLabel, ct
 			Summary:  "Incorrect attribute value type",
 			Detail: fmt.Sprintf(
 				"Inappropriate value for attribute %q: %s.",
-				s.Name, err.Error(),
+				s.Name, conversionErrorDetail(val, s.Type, err),
 			),
 			Subject:     attr.Expr.Range().Ptr(),
 			Context:     hcl.RangeBetween(attr.NameRange, attr.Expr.Range()).Ptr(),
@@ -1340,15 +1352,15 @@ func (s *BlockAttrsSpec) decode(content *hcl.BodyContent, blockLabels []blockLab
 			continue
 		}
 
-		attrVal, attrDiags := attr.Expr.Value(ctx)
+		givenVal, attrDiags := attr.Expr.Value(ctx)
 		diags = append(diags, attrDiags...)
 
-		attrVal, err := convert.Convert(attrVal, s.ElementType)
+		attrVal, err := convert.Convert(givenVal, s.ElementType)
 		if err != nil {
 			diags = append(diags, &hcl.Diagnostic{
 				Severity:    hcl.DiagError,
 				Summary:     "Invalid attribute value",
-				Detail:      fmt.Sprintf("Invalid value for attribute of %q block: %s.", s.TypeName, err),
+				Detail:      fmt.Sprintf("Invalid value for attribute of %q block: %s.", s.TypeName, conversionErrorDetail(givenVal, s.ElementType, err)),
 				Subject:     attr.Expr.Range().Ptr(),
 				Context:     hcl.RangeBetween(attr.NameRange, attr.Expr.Range()).Ptr(),
 				Expression:  attr.Expr,
